@@ -298,6 +298,10 @@ pub fn eval_v(v: &VExp, dict: &Arc<Dictionary>) -> PResult<Option<AvpValue>> {
         VExp::GrpAdd(ms) => {
             let mut g = Grouped::new(vec![], Arc::clone(dict));
             for m in ms {
+                // the group's pure getters are asked between construction steps (results discarded): whatever they
+                // might remember is stale by the time the group is wrapped
+                let _ = g.length();
+                let _ = g.avps().len();
                 match m {
                     AExp::Avp(c, vd, fl, v) => match eval_v(v, dict)? {
                         Some(v) => g.add_avp(*c, *vd, *fl, v),
